@@ -32,7 +32,7 @@ import (
 
 func sizes(tier string) (scenarios int, kinds []string, stride int) {
 	if tier == "thorough" {
-		return 320, []string{"500", "409", "404", "crash-poison"}, 1
+		return 64, []string{"500", "409", "404", "crash-poison"}, 2
 	}
 	return 16, []string{"500", "409", "crash-poison"}, 3
 }
@@ -666,7 +666,7 @@ var _ = corev1.Pod{}
 func init() {
 	reg.Register(&reg.Prop{
 		ID: "C08", Level: "fault_enumeration",
-		Rule:  "each case = one scenario (cluster grown through the real pipeline; drift with pods / underutilised / mixed so that replace and delete commands arise) + orchestration script (queue reconciles interleaved in PRNG order with the replacements being launched, registered and initialised by the real lifecycle controller and the kubelet actor; modes: normal, a replacement vanishes, a non-last candidate vanishes and then a replacement, a drift command needing several replacements that initialise one after the other, replacements stall past the retry deadline, replacements initialise only after the deadline). The scenario runs once fault-free to count K API + provider calls from the round that starts the command to the end of the script, then once per k (stride 2 in quick) and error kind {500, 409, (404), crash+restart}. Monitors: candidate NodeClaim deletes by the orchestration queue judged synchronously against the replacements' Initialized condition; failed or crashed actions must not have deleted candidates and must have taint / DisruptionReason / deletion mark removed within 5 fault-free reconciles; no node in two commands. evaluations = executions; non-trivial = scenarios in which a command was started; distinct by (mode, reason, #replacements, #candidates, success).",
+		Rule:  "each case = one scenario (cluster grown through the real pipeline; drift with pods / underutilised / mixed so that replace and delete commands arise) + orchestration script (queue reconciles interleaved in PRNG order with the replacements being launched, registered and initialised by the real lifecycle controller and the kubelet actor; modes: normal, a replacement vanishes, a non-last candidate vanishes and then a replacement, a drift command needing several replacements that initialise one after the other, replacements stall past the retry deadline, replacements initialise only after the deadline). The scenario runs once fault-free to count K API + provider calls from the round that starts the command to the end of the script, then once per k (stride 3 in quick, 2 in thorough) and error kind {500, 409, (404), crash+restart}. Monitors: candidate NodeClaim deletes by the orchestration queue judged synchronously against the replacements' Initialized condition; failed or crashed actions must not have deleted candidates and must have taint / DisruptionReason / deletion mark removed within 5 fault-free reconciles; no node in two commands. evaluations = executions; non-trivial = scenarios in which a command was started; distinct by (mode, reason, #replacements, #candidates, success).",
 		Cases: cases, Run: run,
 		MinObserved: map[string]int{"scenarios_with_command": 8, "candidate_deletes_observed": 50, "rollback_checks": 30},
 	})
